@@ -219,6 +219,25 @@ def run(p: Program, rep: Report, tier: str) -> None:
                                 rep.violation("R6.3", construct(rs, text=f"drain poll interval {ast.unparse(to)[:40]}"), where(rs, g_),
                                               f"wsgi: the closing consumer's drain loop polls with timeout={ast.unparse(to)[:40]}: after the relay's last hand-off the get() blocks for that whole time before "
                                               "done() is re-checked, so close() returns up to one such interval after the producer finished - the producer is released late (unbounded for a large ping interval)")
+            # the drain loop ends when the relay is done (or was cancelled before it started), not when a clock says so: a relay that
+            # is left running has its blocking put()s (next item, final None) still ahead and nobody takes them any more
+            for t in fins:
+                for n in ast.walk(ast.Module(body=t.finalbody, type_ignores=[])):
+                    if not (isinstance(n, ast.While) and "done()" in ast.unparse(n.test)):
+                        continue
+                    for b_ in ast.walk(n):
+                        if not isinstance(b_, (ast.Break, ast.Return)):
+                            continue
+                        q_ = getattr(b_, "_parent", None)
+                        clock = None
+                        while q_ is not None and q_ is not n:
+                            if isinstance(q_, ast.If) and any(isinstance(c_, ast.Call) and ast.unparse(c_.func) in ("time.monotonic", "time.time", "time.perf_counter", "monotonic", "perf_counter") for c_ in ast.walk(q_.test)):
+                                clock = q_
+                            q_ = getattr(q_, "_parent", None)
+                        if clock is not None and blocking:
+                            rep.violation("R6.3", construct(rs, text=f"drain loop left on a deadline: if {ast.unparse(clock.test)[:40]}"), where(rs, b_),
+                                          f"wsgi: the closing consumer's drain loop is left when `{ast.unparse(clock.test)[:50]}` although the relay is still running: a producer step that takes longer than "
+                                          f"that leaves the relay with {len(blocking)} blocking {qname}.put() calls ahead and nobody draining - it blocks forever, the pool thread leaks and the user's generator is never closed", positive=True)
             # a wait for done() must not wait for a relay that is still QUEUED in the pool (all workers busy with other streams):
             # cancel() has to be tried first and its result has to end the wait
             hn = _handle_names(rs)
